@@ -255,6 +255,12 @@ KD(key, P, n, c) ==
     [] key = "childNodeTestAcceptsRoot"              -> KD_childNodeTestAcceptsRoot(P, n, c)
     [] key = "attributeNodeTestAcceptsNonAttributes" -> KD_attributeNodeTestAcceptsNonAttributes(P, n, c)
     [] key = "attributeStepPositionalPredicate"      -> KD_attributeStepPositionalPredicate(P, n, c)
+(* direction of each class: a false positive (the algorithm accepts, the definition does not) or *)
+(* a false negative                                                                              *)
+KDExtraKeys   == {"anchorLostAfterDescendant", "childNodeTestAcceptsRoot", "attributeNodeTestAcceptsNonAttributes"}
+KDMissingKeys == {"descendantNoBacktrack", "attributeStepPositionalPredicate"}
 KDKeysOf(P, n, c) == {key \in Range(KDKeys) : KD(key, P, n, c)}
+(* the classes that explain the disagreement at node n, given what the algorithm answered there *)
+KDExplains(P, n, c, implSays) == {key \in (IF implSays THEN KDExtraKeys ELSE KDMissingKeys) : KD(key, P, n, c)}
 KnownDeviation(P, n, c) == KDKeysOf(P, n, c) # {}
 =============================================================================
